@@ -96,3 +96,35 @@ M("C19", "B", "comprehension as loop", MEMORY,
   "        expired = [\n            sid\n            for sid, session in self.sessions.items()\n            if now - session.last_activity > max_age\n        ]\n",
   "        expired = []\n        for sid, session in self.sessions.items():\n            if now - session.last_activity > max_age:\n                expired.append(sid)\n")
 M("C19", "B", "guard inverted", MEMORY, "        if session_id in self.sessions:\n            del self.sessions[session_id]\n            return True\n        return False\n", "        if session_id not in self.sessions:\n            return False\n        del self.sessions[session_id]\n        return True\n")
+
+# ------------------------------------------------------------------------------ C04
+_GUARD = "        if not ProtocolVersion.is_supported(protocol_version):\n            # Never acknowledge a version we do not speak: answer with ours\n            protocol_version = CURRENT_VERSION\n"
+M("C04", "V", "guard removed (pre-fix code)", HANDLER, _GUARD, "", "R1")
+M("C04", "V", "fallback is an unsupported constant", HANDLER, "            protocol_version = CURRENT_VERSION\n", "            protocol_version = \"2025-01-01\"\n", "R1")
+M("C04", "V", "session gets the requested version", HANDLER, "        new_session_id = self.session_manager.create_session(\n            client_info, protocol_version\n        )\n",
+  "        new_session_id = self.session_manager.create_session(\n            client_info, params.get(\"protocolVersion\", \"2025-03-26\")\n        )\n", None)
+M("C04", "V", "guard only checks the format", HANDLER, "        if not ProtocolVersion.is_supported(protocol_version):", "        if not ProtocolVersion.validate_format(str(protocol_version)):", "R1")
+M("C04", "V", "is_supported accepts any well-formed date", VERSIONING, "        return version in SUPPORTED_VERSIONS\n", "        return version in SUPPORTED_VERSIONS or ProtocolVersion.validate_format(version)\n", "R1")
+M("C04", "V", "answer echoes the request, session the checked one", HANDLER, "            \"protocolVersion\": protocol_version,\n", "            \"protocolVersion\": params.get(\"protocolVersion\", protocol_version),\n", "R1")
+M("C04", "B", "if-in-else form", HANDLER, _GUARD, "        if protocol_version in SUPPORTED_VERSIONS:\n            pass\n        else:\n            protocol_version = CURRENT_VERSION\n",
+  more=[(HANDLER, "from ..protocol.types.versioning import CURRENT_VERSION, ProtocolVersion\n", "from ..protocol.types.versioning import CURRENT_VERSION, ProtocolVersion, SUPPORTED_VERSIONS\n")])
+M("C04", "B", "fallback literal that is supported", HANDLER, "            protocol_version = CURRENT_VERSION\n", "            protocol_version = \"2024-11-05\"\n")
+
+# ------------------------------------------------------------------------------ C03
+M("C03", "V", "accept any well-formed date", INIT, "        elif server_version in supported_versions:\n", "        elif ProtocolVersion.validate_format(server_version):\n", "R2")
+M("C03", "V", "notify before the check", INIT, "        server_version = str(init_result.protocolVersion)\n", "        server_version = str(init_result.protocolVersion)\n        await send_initialized_notification(write_stream)\n", "R3")
+M("C03", "V", "notify in the mismatch handler", INIT, "    except VersionMismatchError:\n        # Re-raise version mismatch errors (client should disconnect)\n        raise\n",
+  "    except VersionMismatchError:\n        # Re-raise version mismatch errors (client should disconnect)\n        await send_initialized_notification(write_stream)\n        raise\n", "R3")
+M("C03", "V", "mismatch only logged", INIT, "            raise VersionMismatchError(proposed_version, [server_version])\n", "            logging.error(\"continuing anyway\")\n", "R2")
+M("C03", "V", "propose SUPPORTED_VERSIONS[0] ignoring the list", INIT, "        proposed_version = supported_versions[0]\n", "        proposed_version = SUPPORTED_VERSIONS[0]\n", "R1")
+M("C03", "V", "preferred proposed without membership", INIT, "    if preferred_version and preferred_version in supported_versions:\n", "    if preferred_version:\n", "R1")
+M("C03", "V", "returns the proposal not the answer", INIT, "        return init_result\n\n    except VersionMismatchError:", "        init_result.protocolVersion = proposed_version\n        return InitializeResult(protocolVersion=proposed_version, capabilities=init_result.capabilities, serverInfo=init_result.serverInfo)\n\n    except VersionMismatchError:", None)
+M("C03", "V", "tracker records the preferred version", INIT, "        client.set_protocol_version(result.protocolVersion)\n", "        client.set_protocol_version(preferred_version or result.protocolVersion)\n", "R4")
+M("C03", "V", "notification never sent", INIT, "        await send_initialized_notification(write_stream)\n\n        logging.debug(f\"MCP initialization complete", "        logging.debug(f\"MCP initialization complete", "R3")
+M("C03", "V", "sender swallows write failure", INIT, "        logging.error(f\"Error sending initialized notification: {e}\")\n        raise\n", "        logging.error(f\"Error sending initialized notification: {e}\")\n", "R3")
+M("C03", "V", "stdio client forgets the batch processor", STDIO, "        self.batch_processor.update_protocol_version(version)\n", "        self.batch_processor.protocol_version = version\n", None)
+M("C03", "V", "acceptance compares with the preferred not the proposed", INIT, "        if server_version == proposed_version:\n", "        if server_version == preferred_version:\n", "R2")
+M("C03", "B", "or instead of elif", INIT, "        if server_version == proposed_version:\n            # Server accepted our proposed version\n            logging.debug(f\"Version negotiation successful: {server_version}\")\n        elif server_version in supported_versions:\n",
+  "        if server_version == proposed_version or server_version in supported_versions:\n")
+M("C03", "B", "hoist logging", INIT, "        logging.debug(f\"Proposing MCP protocol version: {proposed_version}\")\n", "        pass\n")
+M("C03", "B", "rename server_version", INIT, "        server_version = str(init_result.protocolVersion)\n\n        if server_version == proposed_version:", "        server_version = sv = str(init_result.protocolVersion)\n\n        if sv == proposed_version:")
